@@ -499,7 +499,7 @@ def c14_stress(job, drv):
                             bad += 1
                             out["mismatches"].append({
                                 "phase": "burst %d (N=%d)" % (bi, len(names)), "request": nm, "client": i, "error": err,
-                                "empty": not data, "got": data[:300].decode("latin-1"),
+                                "empty": not data, "got": _mask(data)[:300].decode("latin-1"),
                                 "expected": refs[nm][:300].decode("latin-1"), "burst": names})
                     out["bursts"].append({"n": len(names), "bad": bad, "secs": round(time.time() - t0, 2)})
                 # ---- liveness and reaping ----
@@ -532,7 +532,7 @@ def c14_stress(job, drv):
                             out["mismatches"].append({
                                 "phase": "perturbed start-up burst %d (N=%d, nap %s s, staggered)" % (pi, len(names), pj["nap"]),
                                 "request": nm, "client": i, "offset_s": pj["offsets"][i], "error": err, "empty": not data,
-                                "got": data[:400].decode("latin-1"), "expected": refs[nm][:400].decode("latin-1"),
+                                "got": _mask(data)[:400].decode("latin-1"), "expected": refs[nm][:400].decode("latin-1"),
                                 "burst": names, "perturbed": pj})
                     # what the burst left in the caches is what later clients get
                     for nm in pj["after"]:
@@ -541,7 +541,7 @@ def c14_stress(job, drv):
                             bad += 1
                             out["mismatches"].append({
                                 "phase": "after perturbed start-up burst %d" % pi, "request": nm, "error": e, "empty": not d,
-                                "got": d[:400].decode("latin-1"), "expected": refs[nm][:400].decode("latin-1"),
+                                "got": _mask(d)[:400].decode("latin-1"), "expected": refs[nm][:400].decode("latin-1"),
                                 "burst": names, "perturbed": pj})
                     out["perturbed"].append({"n": len(names), "bad": bad, "nap_s": pj["nap"], "secs": round(time.time() - t0, 2)})
                 finally:
